@@ -120,7 +120,8 @@ PROPS = {
     },
     "C13": {
         "module": "BiscuitModel.Props.C13",
-        "streams": ["snapshot", "authz"],
+        "more_modules": ["BiscuitModel.Props.C02Convert"],
+        "streams": ["snapshot", "authz", "convert"],
         "level_text": "Lean 4 theorems: intern_resolve (an interned string resolves to itself), insert_stable (earlier indices keep their meaning), restore_symbols and restore_keys (re-inserting, one by one, the symbol table and the public-key table a snapshot stores rebuilds exactly the tables the snapshot was written against - for every table produced by interning, snapshot_table_wf - so every symbol and key index in the snapshot keeps its meaning), key_map_restored (the restored key-to-blocks map registers every block, so a scope naming the key of a LATER block trusts it). Tie: for every generated token + authorizer (third-party blocks with their own symbols and keys, scopes naming keys of later blocks), snapshot taken before run, after run and after a failed run, raw and base64: the restored authorizer's decision and query answers are compared with the compiled model's, and an implementation-only oracle compares original and restored authorizer (Display: facts per origin, rules, checks, policies; limits; counters; authorize; queries), the builder snapshot round trip (dump_code, authorize) and the saved-policies round trip. The authz stream adds, for every generated token and authorizer (third-party blocks, key scopes on authorizer rules, checks and policies), the outcome of the authorizer restored from a snapshot taken before anything ran: it must be the outcome of the authorizer itself, which is the outcome of the model.",
         "level_note": "Partial: that the restored authorizer BEHAVES like the original is established by the stream (the theorems give equality of the tables everything is expressed in, not invariance of evaluation under re-interning). Known finding: saved policies that name a public key cannot be restored (no key table in the AuthorizerPolicies message).",
         "rule": "snapshot stream: corpus (three fixed findings) first; authz-style cases x {before, after, after_failed} x {raw, base64}; non-trivial = restore succeeded on a token with at least two blocks; distinct = distinct case JSON",
@@ -410,6 +411,7 @@ POST = {"chain": "chainpost"}
 
 # which cases of a shared stream are in the scope of a property (others are run but not judged)
 FILTERS = {
+    ("C13", "convert"): lambda case: case.get("kind") == "snapshot",
     ("C16", "convert"): lambda case: case.get("gen") == "loose" or case["block"].get("version") != 6,
     ("C16", "chain"): lambda case: case.get("op") == "chain" and case.get("mutation") == "none",
     ("C02", "chain"): lambda case: case.get("op") == "chain" and (case.get("mutation") == "none" or case.get("mutation", "").startswith("honest token")),
